@@ -69,8 +69,14 @@ class Report:
     def unresolved_item(self, rule, where, what):
         self.unresolved.append({'rule': rule, 'where': where, 'what': what})
 
-    def ob(self, rule, fi_or_mod, construct, ok, msg='', line=None, nontrivial=True, qualname=None):
-        """Record an obligation.  fi_or_mod: FuncInfo or module relpath string."""
+    def ob(self, rule, fi_or_mod, construct, ok, msg='', line=None, nontrivial=True, qualname=None, shape=False):
+        """Record an obligation.  fi_or_mod: FuncInfo or module relpath string.
+        shape=True marks an obligation whose failure means 'the rule does not recognise how this is written any more', not
+        'the code is wrong': such a failure is reported as an analysis error (exit 2, no verdict), never as a violation."""
+        if shape and not ok:
+            where = fi_or_mod.where if hasattr(fi_or_mod, 'where') else str(fi_or_mod)
+            self.floor_errors.append('%s: construct not recognised at %s (%s): %s' % (rule, where, construct, msg))
+            return None
         if hasattr(fi_or_mod, 'qualname'):
             module = fi_or_mod.module.relpath
             qn = fi_or_mod.qualname
